@@ -130,6 +130,7 @@ func (t *GoType) HasDirectMethod(name string) bool {
 }
 
 func (t *GoType) GetConverter() (TypeConverter, error) {
+	verifAccess(t, "converter", false)
 	if t.converter != nil {
 		return t.converter, nil
 	}
@@ -137,6 +138,7 @@ func (t *GoType) GetConverter() (TypeConverter, error) {
 	if err != nil {
 		return nil, err
 	}
+	verifAccess(t, "converter", true)
 	t.converter = conv
 	return conv, nil
 }
@@ -159,6 +161,7 @@ func (t *GoType) MarshalJSON() ([]byte, error) {
 // This is NOT threadsafe. The caller must be holding goTypeMutex.
 func newGoType(typ reflect.Type) (*GoType, error) {
 	// Return the existing type if it's already registered
+	verifAccess(&goTypeRegistry, "goTypeRegistry", false)
 	if goType, ok := goTypeRegistry[typ]; ok {
 		return goType, nil
 	}
@@ -196,6 +199,7 @@ func newGoType(typ reflect.Type) (*GoType, error) {
 	}
 
 	// Add the new type to the registry before calling newGoType recursively
+	verifAccess(&goTypeRegistry, "goTypeRegistry", true)
 	goTypeRegistry[typ] = goType
 
 	// Register the indirect type as well (recursive call!)
@@ -257,6 +261,8 @@ func newGoType(typ reflect.Type) (*GoType, error) {
 // A type registry is maintained behind the scenes to ensure that each type
 // is only registered once.
 func NewGoType(typ reflect.Type) (*GoType, error) {
+	verifLock(goTypeMutex, 0)
+	defer verifLock(goTypeMutex, 1)
 	goTypeMutex.Lock()
 	defer goTypeMutex.Unlock()
 
